@@ -21,6 +21,9 @@ TYPES = {
     'ur': dict(n=2, ftf=FTF, lowfid='simple'),
     'u6': dict(n=2, ftf=FTF, lowfid='6node'),
     'dd': dict(n=2, P=0.0062, D=0.0050, Dw=0.0008, ftf=(0.019, 0.021, 0.026, 0.028)),
+    # double-ducted assemblies on the low-fidelity models (walls of different thickness)
+    'du': dict(n=2, P=0.0062, D=0.0050, Dw=0.0008, ftf=(0.019, 0.021, 0.0265, 0.028), lowfid='simple'),
+    'd6': dict(n=2, P=0.0062, D=0.0050, Dw=0.0008, ftf=(0.019, 0.021, 0.0265, 0.028), lowfid='6node'),
 }
 # positions of a 7-position core: (ring, pos)
 POS7 = [(1, 1), (2, 1), (2, 2), (2, 3), (2, 4), (2, 5), (2, 6)]
@@ -35,6 +38,7 @@ LAYOUTS = {
     'ring-no-centre': [('a2', 2, 1), ('a3', 2, 2), ('a2', 2, 3)],
     # finest mesh in the centre, two other mesh kinds alternating around it
     # equal cell counts, different pitches on a shared side (square but non-identity duct<->gap maps)
+    'three-a2-du-d6': [('a2', 1, 1), ('du', 2, 1), ('d6', 2, 2)],
     'three-a3-b3-a2': [('a3', 1, 1), ('b3', 2, 1), ('a2', 2, 2)],
     'seven-alt': [('a4', 1, 1), ('a3', 2, 1), ('a2', 2, 2), ('a3', 2, 3), ('a2', 2, 4), ('a3', 2, 5), ('a2', 2, 6)],
     'five-alt': [('a4', 1, 1), ('a3', 2, 1), ('a2', 2, 2), ('a3', 2, 4), ('a2', 2, 5)],
@@ -53,14 +57,14 @@ def rotate_layout(entries):
     return out
 
 
-def build_reactor(layout, gap_model='flow', adiabatic=False):
+def build_reactor(layout, gap_model='flow', adiabatic=False, **case):
     """layout: a key of LAYOUTS or an explicit tuple of (type, ring, position) entries."""
     if not isinstance(layout, str):
         layout = tuple(tuple(e) for e in layout)
         entries = list(layout)
     else:
         entries = LAYOUTS[layout]
-    key = (layout, gap_model)
+    key = (layout, gap_model, tuple(sorted((k, repr(v)) for k, v in case.items())))
     if key in _CACHE:
         return _CACHE[key]
     d = tempfile.mkdtemp(prefix='dassh-verif-core.')
@@ -68,7 +72,7 @@ def build_reactor(layout, gap_model='flow', adiabatic=False):
         names = sorted(set(t for t, _, _ in entries))
         asms = {t: geninp.default_asm(**TYPES[t]) for t in names}
         assign = [(t, r, p, 'FLOWRATE=%g' % (0.3 + 0.05 * i)) for i, (t, r, p) in enumerate(entries)]
-        inp = geninp.write_case(d, asms, assign, gap_model=gap_model, core_len=0.05)
+        inp = geninp.write_case(d, asms, assign, gap_model=gap_model, **dict({'core_len': 0.05}, **case))
         from symx import npshim
         with npshim.unpatched():
             r = dassh.Reactor(dassh.DASSH_Input(inp), path=os.path.join(d, 'out'), write_output=False)
